@@ -70,6 +70,28 @@ def fault_injector(kind: str):
     return inject
 
 
+READ_OPS = {"read_file", "read_file_with_etag", "exists", "open_file", "DataR", "list_files", "get_modified_time", "get_size"}
+READ_CLASSES = ["hint", "meta", "mlist", "manifest", "data"]
+
+
+def reader_fault_injector(cls: str, nth: int, exc_kind: str = "oserror"):
+    """One transient failure of the reader's nth storage read on a path of class `cls` (pointer, metadata file, manifest
+    list, manifest, data file): ESTALE / EIO on a network filesystem, a throttled GET."""
+    st = {"n": 0, "fired": False, "armed": False}
+
+    def inject(op: str, path: str, idx: int, phase: tuple):
+        if op == "ReadStart":
+            st["armed"] = True          # faults hit the read calls, not the opening of the handle
+        if st["fired"] or not st["armed"] or op not in READ_OPS or P.path_class(path) != cls:
+            return None
+        st["n"] += 1
+        if st["n"] == nth:
+            st["fired"] = True
+            return ("before", OSError(116, "injected transient read failure") if exc_kind == "oserror" else RuntimeError("injected transient read failure"))
+        return None
+    return inject
+
+
 WRITER_SETS = [
     [{"kind": "append", "rows": [{"x": 100}]}],
     [{"kind": "multi_append", "batches": [[{"x": 100}], [{"x": 101}], [{"x": 102}]]}],
@@ -82,8 +104,42 @@ WRITER_SETS = [
 ]
 
 
+def window_chooser(writer: str, reader: str, k: int):
+    """Run `writer` until it is parked just before its k-th write of a metadata file or of the pointer (k = 1, 2, ...;
+    the windows in which a new version exists on storage but is not committed), then the reader to completion, then
+    everything else in order."""
+    def factory(_sc: S.Scheduler):
+        st = {"phase": 0, "seen": 0, "last": None}
+
+        def choose(enabled: List[str], s: S.Scheduler) -> Optional[str]:
+            if st["phase"] == 0:
+                a = s.actors[writer]
+                op, path = a.pending if a.pending else ("", "")
+                key = (a.nyield, op, path)
+                if op in ("write_file", "write_file_cas") and P.path_class(path) in ("meta", "hint") and st["last"] != key:
+                    st["last"] = key
+                    st["seen"] += 1
+                if writer in enabled and st["seen"] < k:
+                    return writer
+                st["phase"] = 1
+            if st["phase"] == 1:
+                if reader in enabled:
+                    return reader
+                st["phase"] = 2
+            return enabled[0] if enabled else None
+        return choose
+    return factory
+
+
+def _injector_for(op: Dict[str, Any]):
+    if op.get("read_fault"):
+        cls, nth, kind = op["read_fault"]
+        return reader_fault_injector(cls, nth, kind)
+    return fault_injector(op["fault"])
+
+
 def injectors(case: Dict[str, Any]) -> Dict[str, Any]:
-    return {f"A{i}": fault_injector(op["fault"]) for i, op in enumerate(case["ops"]) if op.get("fault")}
+    return {f"A{i}": _injector_for(op) for i, op in enumerate(case["ops"]) if op.get("fault") or op.get("read_fault")}
 
 
 def analyse(case: Dict[str, Any], res: P.CaseResult, readers: List[int]) -> Tuple[List[str], List[Dict[str, Any]]]:
@@ -123,7 +179,15 @@ def analyse(case: Dict[str, Any], res: P.CaseResult, readers: List[int]) -> Tupl
             viol.append(f"reader {name} raised: {out}")
             continue
         last_idx = -1
+        faulted = bool(case["ops"][i].get("read_fault"))
         for call in per_reader.get(name, {}).get("calls", []):
+            if isinstance(call["result"], str) and call["result"].startswith("raised:"):
+                STATS["faulted_reads_raised"] = STATS.get("faulted_reads_raised", 0) + 1
+                if not faulted:
+                    viol.append(f"{call['api']} raised {call['result'][7:]} although no fault was injected into this reader")
+                continue
+            if faulted:
+                STATS["faulted_reader_calls_returned"] = STATS.get("faulted_reader_calls_returned", 0) + 1
             states = res.states
             want = lambda k: (len(states[k]["rows"]) if call["api"] == "row_count" else states[k]["rows"]) if k < len(states) else None
             lo, hi = call["start"], call["end"]
@@ -136,7 +200,9 @@ def analyse(case: Dict[str, Any], res: P.CaseResult, readers: List[int]) -> Tupl
                             f"and its end ({hi}): versions {[want(k) for k in range(lo, hi + 1)]}")
                 continue
             # model prediction: exactly the version current at the single pointer resolution
-            if call["ptr"] is None or want(call["ptr"]) != call["result"]:
+            if faulted and call.get("extra_ptr_reads"):
+                pass        # a fault made the API resolve the pointer again: judged by the oracle above only
+            elif call["ptr"] is None or want(call["ptr"]) != call["result"]:
                 bad.append({"case": c01._case_json(case), "schedule": res.schedule, "api": call["api"], "ptr_index": call["ptr"],
                             "result": call["result"], "model_predicts": want(call["ptr"]) if call["ptr"] is not None else None})
             idx = call["ptr"] if call["ptr"] is not None else min(cands)
@@ -192,6 +258,39 @@ def run(ctx) -> None:
                     ctx.violation(f"reader:{api}:{'+'.join(o['kind'] for o in writers)}", v,
                                   {"case": c01._case_json(case), "deviations": list(dev), "schedule": res.schedule})
                 bad_all.extend(bad)
+    # faulted readers: one transient failure of the reader's nth read of each class of file while writers commit / fail
+    fw_sets = [WRITER_SETS[1], WRITER_SETS[5], WRITER_SETS[0]]
+    for wi, writers in enumerate(fw_sets if not quick else fw_sets[:2]):
+        for ci, cls in enumerate(READ_CLASSES):
+            for nth in ((1, 2) if quick else (1, 2, 3, 4)):
+                ai = (wi * 5 + ci + nth) % len(APIS)
+                api = APIS[ai]
+                reader_op = {"kind": "read", "apis": [api, APIS[(ai + 1) % len(APIS)]], "tolerate_errors": True,
+                             "read_fault": (cls, nth, "oserror" if (ci + nth) % 2 else "runtime")}
+                ops = writers + [reader_op]
+                case = {"ops": ops, "clock": "tick", "topology": "separate", "yield_filter": reader_filter, "track_states": True,
+                        "injectors": {i: (lambda o=op: _injector_for(o)) for i, op in enumerate(ops) if op.get("fault") or op.get("read_fault")}}
+                readers = [len(writers)]
+                runs = list(c01.explore(ctx, case, 2, 10 if quick else 80))
+                for k in range(2 if quick else 10):
+                    seed = ctx.rng.randrange(1 << 30)
+                    res = P.run_case(ctx.scratch, c01._fix_case(case), lambda sc, seed=seed: S.random_chooser(_r.Random(seed), 0.45), tag="c02f",
+                                     inject=injectors(case) or None)
+                    runs.append(([("random", seed)], res))
+                # directed: the faulted read falls into each window "new metadata on storage, pointer not flipped yet"
+                for w in range(len(writers)):
+                    for k in (1, 2, 3):
+                        res = P.run_case(ctx.scratch, c01._fix_case(case), window_chooser(f"A{w}", f"A{len(writers)}", k), tag="c02w",
+                                         inject=injectors(case) or None)
+                        runs.append(([("window", w, k)], res))
+                for dev, res in runs:
+                    total += 1
+                    ctx.count(1, ("fault", wi, cls, nth, tuple(res.schedule)))
+                    viol, bad = analyse(case, res, readers)
+                    for v in viol:
+                        ctx.violation(f"faulted-reader:{cls}:{api}", v,
+                                      {"case": c01._case_json(case), "deviations": list(dev), "schedule": res.schedule})
+                    bad_all.extend(bad)
     # two readers, three writers, random
     for k in range(6 if quick else 120):
         writers = WRITER_SETS[-1]
@@ -220,7 +319,10 @@ def replay(ctx, payload) -> int:
         return 2
     case["yield_filter"] = reader_filter
     dev = c.get("deviations", [])
-    if dev and dev[0][0] == "random":
+    if dev and dev[0][0] == "window":
+        res = P.run_case(ctx.scratch, c01._fix_case(case), window_chooser(f"A{dev[0][1]}", f"A{len(case['ops']) - 1}", dev[0][2]), tag="replay",
+                         inject=injectors(case) or None)
+    elif dev and dev[0][0] == "random":
         res = P.run_case(ctx.scratch, c01._fix_case(case), lambda sc: S.random_chooser(_r.Random(dev[0][1]), 0.45), tag="replay",
                          inject=injectors(case) or None)
     else:
